@@ -317,6 +317,9 @@ class Irving:
       all arrays should have np.integer dtype.
     """
     n = profile_1.shape[0]
+    # Ranks are used as slice bounds below, so they have to be integers (profiles may be stored as floats).
+    profile_1 = profile_1.astype(np.int64)
+    profile_2 = profile_2.astype(np.int64)
 
     # 0-indexed
     ranked_profile_1 = np.argsort(profile_1, axis=1)
